@@ -20,11 +20,13 @@ INVARIANT NullabilityLaw
 NEGATIVE = {"nullskips": "ArgLaw", "directbases": "InterfacesLaw", "enumdefault": "ArgLaw", "ehcatchesargs": "ArgLaw",
             "infobreak": "ArgLaw"}
 FINDING = "F-gql-enum-default"
+# classes of the model that are parametrisations of the generic class Box of the module header
+GENERICS = {"IntBox": "Box[int]", "StrBox": "Box[str]"}
 
 HEAD = '''
 from dataclasses import dataclass, field
 from enum import Enum
-from typing import Annotated, List, Literal, NewType, Optional, Union
+from typing import Annotated, Generic, List, Literal, NewType, Optional, TypeVar, Union
 from apischema import Undefined, UndefinedType, alias, schema, type_name
 from apischema.graphql import ID, interface, resolver
 from apischema.metadata import flatten
@@ -41,6 +43,23 @@ class Unser:
 
 
 UNSER = Unser()
+T = TypeVar("T")
+
+
+@type_name(lambda cls, *args: (args[0].__name__.capitalize() if args else "") + "Box")
+@dataclass
+class Box(Generic[T]):
+    item: T
+
+    @resolver
+    def first(self) -> T:
+        return self.item
+
+    @resolver
+    def has(self, item: T) -> bool:
+        return item == self.item
+
+
 Score = NewType("Score", int)
 CInt = Annotated[int, schema(min=0)]
 Lit = Annotated[Literal["x", "y"], type_name("Lit")]
@@ -62,7 +81,7 @@ def type_expr(T: dict) -> str:
     if k == "enum":
         return T["n"]
     if k == "obj":
-        return T["n"]
+        return GENERICS.get(T["n"], T["n"])
     if k == "uni":
         return "Union[" + ", ".join(T["ns"]) + "]"
     if k == "list":
@@ -93,7 +112,7 @@ def value_expr(v: dict) -> str:
     if k == "list":
         return "[" + ", ".join(value_expr(x) for x in v["a"]) + "]"
     if k == "inst":
-        return f"{v['cls']}(" + ", ".join(f"{n}={value_expr(x)}" for n, x in v["f"]) + ")"
+        return f"{'Box' if v['cls'] in GENERICS else v['cls']}(" + ", ".join(f"{n}={value_expr(x)}" for n, x in v["f"]) + ")"
     raise tlc.MachineryError(f"no value expression for {v}")
 
 
@@ -108,7 +127,7 @@ def default_expr(d: dict, in_class: bool) -> Optional[str]:
     if k == "unser":
         return "UNSER"
     e = value_expr(d["v"])
-    if in_class and d["v"]["k"] == "list":
+    if in_class and d["v"]["k"] in ("list", "inst"):
         return f"@factory:{e}"
     return e
 
@@ -145,6 +164,8 @@ def module_source(model: dict) -> str:
     src = [HEAD]
     for n in class_order(ct):
         c = ct[n]
+        if n in GENERICS:
+            continue
         if c["kind"] == "interface":
             src.append("@interface")
         src.append("@dataclass")
@@ -319,7 +340,7 @@ def run_setting(rep: common.Report, model: dict, cases: List[dict], st: Setting)
             ops.append(Query(ns[f"param_{i}"], error_handler=handler))
         else:
             ops.append(ns[f"param_{i}"])
-    classes = [getattr(mod, name) for name, c in model["ct"].items() if c["kind"] != "hidden"]
+    classes = [getattr(mod, name) for name, c in model["ct"].items() if c["kind"] != "hidden" and name not in GENERICS]
     try:
         schema = graphql_schema(query=ops, types=classes, **st.kwargs())
     except Exception as exc:
@@ -339,7 +360,7 @@ def run_setting(rep: common.Report, model: dict, cases: List[dict], st: Setting)
         t = schema.type_map.get(cname)
         info = dict(info0, cls=cname, expected=exp)
         want_kind = graphql.GraphQLInterfaceType if exp["kind"] == "interface" else graphql.GraphQLObjectType
-        if cname in ("LeafIn", "EnumIn"):
+        if cname in ("LeafIn", "EnumIn", "SubIn"):
             t_in = schema.type_map.get(cname + "Input")
             if not isinstance(t_in, graphql.GraphQLInputObjectType):
                 rep.violation(f"input type {cname}Input missing from the type map [{st.label}]", info)
